@@ -9,6 +9,8 @@
 //   - literal arm: value -> spelling; the scanner must return the value (ints via math/big, floats via
 //     exact rational arithmetic, strings and bytes assembled piece by piece from the escape rules of
 //     doc/spec.md), and must reject the spellings the spec declares erroneous.
+//   - sequence arm: every parameter/argument kind sequence up to a length bound; the documented superset
+//     the parser accepts must be cut back by the resolver to exactly the grammar's ordering rules.
 //   - near-miss arm: one token of a valid token list is deleted, duplicated or swapped; the text is
 //     rejected with a position, or accepted with a tree that spells the same token sequence.
 //
@@ -49,7 +51,8 @@ func init() {
 			"Literal arm: a case is a batch of 100 literals, each built value-first (ints 0-300 bits in 4 bases, 7 float forms, str/bytes/raw/triple literals of 0-8 escape pieces, and erroneous spellings); " +
 			"one evaluation = one literal scanned in a small statement and judged (value, kind, raw text, positions of the literal and of the two following tokens). Distinct = distinct spellings. " +
 			"Near-miss arm: a case is one random base program rendered plain plus 20 single-token deletions/duplications/swaps within a line; one evaluation = one text parsed and judged. Distinct = distinct mutated texts. " +
-			"Trivial cases (a near-miss identical to its base) are not counted as distinct.",
+			"Trivial cases (a near-miss identical to its base) are not counted as distinct. " +
+			"Sequence arm: every parameter list over {required, optional, *, *args, **kwargs} and every argument list over {positional, named, *x, **x} up to length 4 (quick) or 6 (thorough), in def, lambda and call position and rotating layouts: accepted by parser+resolver exactly when the spec's ordering rules allow it, the accepted tree spelling the same kinds in the same order, a rejection positioned inside the text.",
 		Assumptions: []string{
 			"verif/internal/gen renderer: token text and position bookkeeping (re-checked per rendering against the text by offset lookup) and its precedence table written from doc/spec.md",
 			"precedence of `not`, conditional expressions and lambda taken from Python where doc/spec.md is silent",
@@ -82,6 +85,7 @@ func run(c *driver.Ctx) {
 		}
 		literalCase(c)
 	}
+	seqArm(c)
 	nn := c.Pick(1000, 100000)
 	for i := 0; i < nn; i++ {
 		if !c.Take() {
